@@ -165,7 +165,22 @@ func run(p Plan) (vk.Outcome, error) {
 		if p.CallUs > 0 && expired < 3 {
 			ctx, cancel = sk.WithTimeout(ctx, us(p.CallUs))
 		}
-		batch, err := b.Next(ctx)
+		type res struct {
+			batch []int
+			err   error
+		}
+		resC := make(chan res, 1)
+		go func() { batch, err := b.Next(ctx); resC <- res{batch, err} }()
+		var batch []int
+		var err error
+		select {
+		case r := <-resC:
+			batch, err = r.batch, r.err
+		case <-vk.After(10 * time.Second):
+			// (Close would hang as well: the case is abandoned)
+			return out, vk.Violf("stuck", "Next #%d has not returned 10 s after it was called (source: %d items, gaps <= %d us, maxWait %d us): neither items, nor the end, nor an error",
+				i, len(p.GapsUs), 3*p.MaxWaitUs, p.MaxWaitUs)
+		}
 		got := time.Now()
 		cancel()
 		if err == stream.End {
